@@ -25,6 +25,7 @@ def synth_cases(tier):
         c = dict(case)
         c['desc'] = 'synthetic:' + name
         c.update(opt)
+        c['replay'] = {'fn': 'codecfn.synth', 'case': dict(case)}
         C.append(c)
     # ---- literal counts around the signed/unsigned boundary of the push$ operand
     add('literals-32767,push$-last', {'literals': [['range', 0, 32767]],
@@ -96,8 +97,13 @@ def synth_cases(tier):
     add('frame-65535', {'instrs': [['frame', 65535, 65535], ['frame', 0, 0], ['halt']]})
     add('frame-65536', {'instrs': [['frame', 65536, 0], ['halt']]}, legit_reject=True, limit='frame>65535')
     add('push-int-limits', {'instrs': [['push%', 32767], ['push%', -32768], ['push%', 3], ['push&', 2147483647],
-                                       ['push&', -2147483648], ['push&', 40000], ['push%', -2], ['push&', 2],
-                                       ['pushm1%'], ['push1&'], ['push0%'], ['halt']]})
+                                       ['push&', -2147483648], ['push&', 40000],
+                                       ['pushm1%'], ['push1&'], ['push0%']] +
+                                      [[f'push{t}', v] for t in '%&' for v in (-2, -1, 0, 1, 2)] +
+                                      [[f'push{t}', ['f', b]] for t in '!#'
+                                       for b in (0xc000000000000000, 0xbff0000000000000, 0,
+                                                 0x3ff0000000000000, 0x4000000000000000)] +
+                                      [['halt']]})
     add('push-int-32768', {'instrs': [['push%', 32768], ['halt']]}, legit_reject=True, limit='push%>32767')
     add('push-long-2^31', {'instrs': [['push&', 2147483648], ['halt']]}, legit_reject=True, limit='push&>2^31-1')
     F = lambda b: ['f', b]
@@ -117,7 +123,10 @@ def synth_cases(tier):
                               ['errhand', 0], ['errhand', 1], ['errhand', 'c'], ['_label', 'c'], ['ret'],
                               ['_label', 'dup'], ['nop'], ['_label', 'dup'], ['jmp', 'dup'], ['halt']]})
     add('label-missing', {'instrs': [['jmp', 'nowhere'], ['halt']]}, legit_reject=True, limit='unknown-label')
-    add('label-at-end', {'instrs': [['jmp', 'fin'], ['halt'], ['_label', 'fin']]})
+    # a label after the last instruction: its offset is the end of the code, no instruction
+    # start - unreachable from source (every routine ends in ret); the checker must say so
+    add('label-at-end', {'instrs': [['jmp', 'fin'], ['halt'], ['_label', 'fin']]},
+        expected_sigs=['C09/target-not-instruction-start'])
     add('io-all', {'instrs': [['io', d, o] for d, o in IO_ALL] + [['halt']]})
     add('io-unknown', {'instrs': [['io', 'terminal', 'nosuchop'], ['halt']]}, legit_reject=True,
         limit='unknown-device-op')
@@ -327,7 +336,9 @@ def run_malformed(ctx, ck, tier, bases):
 def run(ctx, ck, tier, tables):
     global IO_ALL, PLAIN_OPS
     IO_ALL = [(d, o) for d, _, ops in tables['devices'] for o, _ in ops]
-    PLAIN_OPS = [op for op, _, kinds in tables['instrs'] if not kinds]
+    import re as _re
+    PLAIN_OPS = [op for op, _, kinds in tables['instrs']
+                 if not kinds and not _re.fullmatch(r'push(m?[0-2])[%&!#]', op)]
     cases = synth_cases(tier)
     results = vlib.run_impl('codecfn.synth', cases, par=8)
     mouts = ck.run_models(results)
